@@ -34,4 +34,16 @@ MUTANTS = {
   ("eq-attrs-subset", M, "        return set(self.attributes) == set(other.attributes)", "        return set(self.attributes) <= set(other.attributes)"),
   ("literal-eq-ignores-lang", M, "                and self._langtag == other.langtag\n", ""),
  ],
+ "C05": [
+  ("nf-revert-set_time", M, "self._attributes[PROV_ATTR_STARTTIME] = {_ensure_datetime(startTime)}", "self._attributes[PROV_ATTR_STARTTIME] = {startTime}"),
+  ("nf-revert-asserted-type", M, "self._attributes[PROV_TYPE].add(self._auto_literal_conversion(type_identifier))", "self._attributes[PROV_TYPE].add(type_identifier)"),
+  ("nf-revert-membership", M, "not (is_collection and attr == PROV_ATTR_ENTITY)", "not is_collection"),
+  ("nf-no-single-value-guard", M, "                    if is_not_same_value:\n                        raise ProvException(", "                    if False:\n                        raise ProvException("),
+  ("nf-same-value-raises", M, "                        is_not_same_value = value != existing_value\n", "                        is_not_same_value = True\n"),
+  ("nf-long-not-converted", M, "    XSD_LONG: int,\n", ""),
+  ("nf-usage-time-unparsed", M, "                PROV_ATTR_ACTIVITY: activity,\n                PROV_ATTR_ENTITY: entity,\n                PROV_ATTR_TIME: _ensure_datetime(time),", "                PROV_ATTR_ACTIVITY: activity,\n                PROV_ATTR_ENTITY: entity,\n                PROV_ATTR_TIME: time,"),
+  ("nf-convenience-swaps-args", M, "self._bundle.delegation(\n            self, responsible, activity, other_attributes=attributes", "self._bundle.delegation(\n            responsible, self, activity, other_attributes=attributes"),
+  ("nf-alias-wrong-target", M, "    wasInvalidatedBy = invalidation\n", "    wasInvalidatedBy = generation\n"),
+  ("nf-record-arg-not-unwrapped", M, "                        original_value.identifier\n                        if isinstance(original_value, ProvRecord)\n                        else original_value", "                        original_value"),
+ ],
 }
